@@ -93,6 +93,27 @@ fn bits(s: &str) -> Result<Vec<bool>, String> {
     Ok(out)
 }
 
+/// an iterator over the given bits that reports the size hint `h<lower>:<upper|none>` (any hint with
+/// lower <= count <= upper is a legal one; `extend`/`from_bits` take any iterator)
+struct Hinted {
+    it: std::vec::IntoIter<bool>,
+    lo: usize,
+    hi: Option<usize>,
+}
+impl Iterator for Hinted {
+    type Item = bool;
+    fn next(&mut self) -> Option<bool> {
+        self.it.next()
+    }
+    fn size_hint(&self) -> (usize, Option<usize>) {
+        (self.lo.min(self.it.len()), self.hi.map(|h| h.max(self.it.len())))
+    }
+}
+fn hinted(v: Vec<bool>, h: &str) -> Result<Hinted, String> {
+    let (l, u) = h.strip_prefix('h').and_then(|r| r.split_once(':')).ok_or("hint")?;
+    Ok(Hinted { it: v.into_iter(), lo: num(l)?, hi: if u == "none" { None } else { Some(num(u)?) } })
+}
+
 fn on(x: Option<usize>) -> String {
     match x {
         Some(v) => format!("some {v}"),
@@ -455,6 +476,7 @@ impl St {
         let o: Option<Obj> = match (kind, ctor) {
             ("bv", "new") => Some(Obj::Bv(BitVector::new())),
             ("bv", "from_bit") => Some(Obj::Bv(BitVector::from_bit(flag(a[0])?, num(a[1])?))),
+            ("bv", "from_bits") if a.len() > 1 => Some(Obj::Bv(BitVector::from_bits(hinted(bits(a[0])?, a[1])?))),
             ("bv", "from_bits") => Some(Obj::Bv(BitVector::from_bits(bits(a[0])?))),
             ("bv", "build") => BitVector::build_from_bits(bits(a[0])?, flag(a[1])?, flag(a[2])?, flag(a[3])?).ok().map(Obj::Bv),
             ("r9", "new") => {
@@ -696,6 +718,7 @@ impl St {
                 "push_bits" => okerr(&b.push_bits(num(a[0])?, num(a[1])?)),
                 "set_bit" => okerr(&b.set_bit(num(a[0])?, flag(a[1])?)),
                 "set_bits" => okerr(&b.set_bits(num(a[0])?, num(a[1])?, num(a[2])?)),
+                "extend" if a.len() > 1 => { b.extend(hinted(bits(a[0])?, a[1])?); "ok".into() }
                 "extend" => { b.extend(bits(a[0])?); "ok".into() }
                 "shrink_to_fit" => { b.shrink_to_fit(); "ok".into() }
                 _ => return Err(format!("bad bv mutator {m}")),
